@@ -44,9 +44,17 @@ pub fn run(ctx: &mut Ctx) {
     let n = if quick { 30_000 } else { 1_500_000 };
     ctx.run_cases(n, |ctx, idx, rng| {
         let size = *rng.pick(&[0usize, 0, 1, 1, 2, 2]);
-        let (desc, tree) = if idx % 4 == 3 && rng.chance(0.15) {
-            let k = rng.range(6, 40);
-            (format!("shared_chance_fan(k={})", k), gen::shared_chance_fan(rng, k))
+        // fan shapes are sized against a thread count (see c06.rs): k < 3 x threads root actions
+        let mut fan_threads: Option<usize> = None;
+        let (desc, tree) = if idx % 4 == 3 && rng.chance(0.25) {
+            let t = *rng.pick(&[2usize, 3, 4, 4, 8]);
+            fan_threads = Some(t);
+            let k = (3 * t - 1 - rng.below(2)).max(3);
+            if rng.chance(0.6) {
+                (format!("shared_chance_fan_below(k={},threads={})", k, t), gen::shared_chance_fan_below(rng, k, k > 12))
+            } else {
+                (format!("shared_chance_fan(k={},threads={})", k, t), gen::shared_chance_fan(rng, k))
+            }
         } else if idx % 4 == 3 {
             // contention workload for the parallel solvers: wide trees with hidden moves, so that
             // one infoset lies below several frontier nodes handed to different workers
@@ -79,7 +87,16 @@ pub fn run(ctx: &mut Ctx) {
             if nodes > 300 && iters > 100 {
                 iters = 100;
             }
-            let threads = if idx % 4 == 3 { *rng.pick(&[2usize, 3, 4, 8, 16]) } else { pick_threads(rng) };
+            let mut threads = if idx % 4 == 3 { *rng.pick(&[2usize, 3, 4, 8, 16]) } else { pick_threads(rng) };
+            if let Some(t) = fan_threads {
+                threads = t;
+            } else if idx % 4 == 3 && rng.chance(0.5) {
+                let modes = solve::frontier_modes(method);
+                let (t, tasks) = tree.best_threads(modes, &[2, 3, 4, 5, 6, 8, 12, 16]);
+                if tasks >= 2 {
+                    threads = t;
+                }
+            }
             if threads > 1 && threads <= 64 && iters > 100 {
                 iters = 100;
             }
